@@ -45,6 +45,10 @@ MIN_LEN = {
 }
 
 
+# blocks whose last statement is also generated as a real `return` / `raise` (visited by supp's own visit method, not sunk)
+ESCAPING_LAST = {('Try', 'body')}
+
+
 class ShapeBuilder(object):
     def __init__(self, choices=None, profile='max'):
         self.choices = choices or {}
@@ -137,7 +141,14 @@ class ShapeBuilder(object):
         if sort == 'stmt':
             if mult == '*':
                 k = self.pick(key + ('len',), self.lens(cls, fld))
-                return [self.opaque('stmt', '%s[%d]' % (p, i)) for i in range(k)]
+                out = [self.opaque('stmt', '%s[%d]' % (p, i)) for i in range(k)]
+                # a protected block may end in a statement that leaves it: control still reaches the handlers and the
+                # finally block from every statement before it (and from the expression the statement evaluates)
+                if (cls, fld.name) in ESCAPING_LAST and k >= 2:
+                    last = self.pick(key + ('last',), ['opaque', 'Return', 'Raise'])
+                    if last != 'opaque':
+                        out[-1] = self.node(last, '%s[%d]' % (p, k - 1))
+                return out
             return self.opaque('stmt', p)
         if sort == 'identifier':
             if mult == '1':
@@ -361,11 +372,38 @@ class Extractor(object):
             return Native('NodeVisitor.generic_visit', lambda i, a, k: self.do_generic_visit(obj, a[0]))
         return NotImplemented
 
+    def optional_scope_attr(self, attr):
+        """A factory for the initial value `self.<attr> = <empty literal>` some subclass of Scope gives the attribute, or None."""
+        import ast as _ast
+        for ci in self.facts.classes.values():
+            if ci.name == 'Scope' or not any(c.name == 'Scope' for c in ci.mro()):
+                continue
+            init = ci.methods.get('__init__')
+            if init is None:
+                continue
+            for st in _ast.walk(init.node):
+                if isinstance(st, _ast.Assign) and len(st.targets) == 1 and isinstance(st.targets[0], _ast.Attribute) and \
+                        isinstance(st.targets[0].value, _ast.Name) and st.targets[0].value.id == 'self' and st.targets[0].attr == attr:
+                    v = st.value
+                    if isinstance(v, _ast.List) and not v.elts:
+                        return list
+                    if isinstance(v, _ast.Dict) and not v.keys:
+                        return dict
+                    if isinstance(v, _ast.Call) and isinstance(v.func, _ast.Name) and v.func.id in ('set', 'list', 'dict') and not v.args:
+                        return {'set': set, 'list': list, 'dict': dict}[v.func.id]
+        return None
+
     def h_scope_attr(self, it, obj, attr):
         if obj.label == 'CURSCOPE':
             if it.guarded_getattr:
                 it.effect('curscope_attr_guarded', attr)
-                return NotImplemented      # getattr(scope, attr, default): absent on some scope kinds -> default
+                # getattr(scope, attr, default): the current scope may be of any kind - absent on the kinds whose constructor
+                # does not create the attribute (-> default), present (as that constructor initialises it) on the others
+                init = self.optional_scope_attr(attr)
+                if init is not None and it.decide(('has', 'CURSCOPE', attr)):
+                    v = obj.attrs[attr] = init()
+                    return v
+                return NotImplemented
             it.effect('curscope_attr', attr)
             if attr == 'returns':
                 v = obj.attrs['returns'] = []
